@@ -62,6 +62,7 @@ fn bool_as_u128(b: bool) -> (r: u128) ensures r == (if b { 1u128 } else { 0u128 
 
 def unit():
     u = VUnit('poly_kernels', 'array kernels of the NTT / polynomial routines (abstract field)')
+    u.oracle = {'inject': 'src/ntt.rs', 'file': 'ntt_oracle.rs', 'test': 'verif_oracle_ntt::oracle_ntt_contracts'}
     u.raw('global size_of usize == 8;     // [assumption] 64-bit target\n' + FE_PRELUDE, 'abstract-field')
     u.raw(PRELUDE, 'prelude')
     GENF = [(r'<F: NttFriendlyFieldElement>', '', 1), (r'\bF::zero\(\)', 'fe_zero()', '*'), (r'\bF\b', 'Fe', '*')]
@@ -180,4 +181,171 @@ invariant
     // the in-place overwrite never destroys a value that is still to be read
     forall|j: int| output_position <= j < output@.len() ==> #[trigger] output@[j] == old(output)@[j],
 '''})
+    return u
+
+
+NTT_PRELUDE = '''
+pub const MAX_ROOTS: usize = %(MR)d;      // parsed from src/fp.rs on this run
+// F::root(l): Some exactly for l <= MAX_ROOTS (make_field!: l < min(ROOTS.len(), NUM_ROOTS + 1); NUM_ROOTS >= MAX_ROOTS is checked
+// for the three shipped fields by the unit generator on this run)
+#[verifier::external_body]
+fn fe_root(l: usize) -> (r: Option<Fe>) ensures r is Some <==> l <= MAX_ROOTS { unimplemented!() }
+#[verifier::external_body]
+fn usize_try_from_u128(x: u128) -> (r: Result<usize, ()>)
+    ensures (x as int <= usize::MAX as int) ==> r == Ok::<usize, ()>(x as usize), (x as int > usize::MAX as int) ==> r is Err
+{ unimplemented!() }
+// contracts proved in unit poly_kernels (same run)
+#[verifier::external_body]
+fn log2(x: u128) -> (r: u128)
+    requires x >= 1,
+    ensures r <= 127 || (r == 128 && x as int > pow2(127)), (x as int) <= pow2(r as nat), r >= 1 ==> pow2((r - 1) as nat) < x as int,
+{ unimplemented!() }
+#[verifier::external_body]
+fn bitrev(d: usize, x: usize) -> (r: usize)
+    requires 1 <= d <= 64,
+    ensures d < 64 ==> (r as int) < pow2(d as nat),
+{ unimplemented!() }
+proof fn lemma_shl_pow2(k: usize)
+    requires k <= 62
+    ensures (1usize << k) as int == pow2(k as nat), pow2(k as nat) < 0x1_0000_0000_0000_0000
+{
+    lemma2_to64();
+    lemma_pow2_strictly_increases(k as nat, 64);
+    lemma_usize_shl_is_mul(1usize, k);
+}
+proof fn lemma_pow2_strictly_increases_or_eq(a: nat, b: nat) requires a <= b ensures pow2(a) <= pow2(b)
+{ if a < b { lemma_pow2_strictly_increases(a, b); } }
+// power-of-two index arithmetic of the butterflies: j < 2^(d-l), i < 2^(l-1)  ==>  j*2^l + i + 2^(l-1) < 2^d
+proof fn lemma_butterfly_index(d: nat, l: nat, j: int, i: int)
+    requires 1 <= l <= d, 0 <= j < pow2((d - l) as nat), 0 <= i < pow2((l - 1) as nat)
+    ensures j * pow2(l) + i + pow2((l - 1) as nat) < pow2(d), j * pow2(l) >= 0, pow2(l) == 2 * pow2((l - 1) as nat), pow2(d) == pow2((d - l) as nat) * pow2(l)
+{
+    lemma_pow2_unfold(l);
+    lemma_pow2_adds((d - l) as nat, l);
+    let a = pow2((d - l) as nat) as int; let b = pow2(l) as int;
+    assert(j * b + b <= a * b) by (nonlinear_arith) requires j + 1 <= a, b >= 0;
+    assert(j * b >= 0) by (nonlinear_arith) requires j >= 0, b >= 0;
+}
+'''
+
+
+BFLY = '''
+    lemma_pow2_pos((l - 1) as nat);
+    lemma_butterfly_index(d as nat, l as nat, j as int, %s);
+    lemma_pow2_strictly_increases_or_eq(d as nat, 20); lemma2_to64();
+    assert(j as int * pow2(l as nat) <= usize::MAX as int);
+    lemma_usize_shl_is_mul(j, l);
+'''
+
+
+def unit_ntt():
+    """ntt_internal: error reporting, index safety of the bit-reversal copy and of every butterfly, frame."""
+    import os, re
+    from vunit import REPO
+    fp = open(os.path.join(REPO, 'src/fp.rs')).read()
+    mr = int(re.search(r'const MAX_ROOTS: usize = (\d+);', fp).group(1))
+    for nr in re.findall(r'const NUM_ROOTS: usize = (\d+);', fp):
+        if int(nr) < mr:
+            from vunit import Unsupported
+            raise Unsupported('a field has NUM_ROOTS < MAX_ROOTS: the F::root contract of unit ntt_safe does not hold')
+    u = VUnit('ntt_safe', 'ntt_internal: error reporting and index safety for every size')
+    u.oracle = {'inject': 'src/ntt.rs', 'file': 'ntt_oracle.rs', 'test': 'verif_oracle_ntt::oracle_ntt_contracts'}
+    u.raw('global size_of usize == 8;     // [assumption] 64-bit target\n' + FE_PRELUDE, 'abstract-field')
+    u.raw('pub enum NttError { OutputTooSmall, SizeTooLarge, SizeInvalid }\n' + NTT_PRELUDE % dict(MR=mr), 'prelude')
+    u.item('src/ntt.rs', ['fn ntt_internal'], ret='r',
+           rewrites=[(r'<F: NttFriendlyFieldElement>', '', 1), (r'\bF::zero\(\)', 'fe_zero()', '*'), (r'\bF::one\(\)', 'fe_one()', '*'),
+                     (r'\bF::root\(', 'fe_root(', 2), (r'\bF\b', 'Fe', '*'),
+                     (r'outp: &mut \[Fe\]', 'outp: &mut Vec<Fe>', 1), (r'inp: &\[Fe\]', 'inp: &Vec<Fe>', 1),       # E3c
+                     # X.map_err(|_| E)?  ==  match X { Ok(v) => v, Err(_) => return Err(E) }
+                     (r'usize::try_from\(log2\(size as u128\)\)\.map_err\(\|_\| NttError::SizeTooLarge\)\?',
+                      'match usize_try_from_u128(log2(size as u128)) { Ok(v) => v, Err(_) => { return Err(NttError::SizeTooLarge); } }', 1),
+                     # E4c: enumerate over a mutable sub-slice == index loop over its range
+                     (r'for \(i, outp_val\) in outp\[\.\.size\]\.iter_mut\(\)\.enumerate\(\) \{', 'for i in 0..size {', 1),
+                     (r'\*outp_val = ', 'outp[i] = ', 1)],
+           sig='''
+requires
+    size >= 1,                                  // derived: log2(0) underflows; every call site passes a length >= 1
+    size == 1 ==> inp@.len() >= 1,              // derived: the size-1 transform copies inp[0] (larger sizes zero-pad a short input)
+ensures
+    final(outp)@.len() == old(outp)@.len(),
+    // size and capacity violations are reported as errors, in this order
+    size > old(outp)@.len() ==> r == Err::<(), NttError>(NttError::OutputTooSmall),
+    size <= old(outp)@.len() && ((set_s && size as int > pow2((MAX_ROOTS - 1) as nat)) || size as int > pow2(MAX_ROOTS as nat)) ==> r == Err::<(), NttError>(NttError::SizeTooLarge),
+    r is Ok <==> (size <= old(outp)@.len() && (exists|d: nat| d <= MAX_ROOTS && (set_s ==> d < MAX_ROOTS) && size as int == pow2(d))),
+    // frame: nothing beyond the transform size is written
+    forall|k: int| size <= k < old(outp)@.len() ==> #[trigger] final(outp)@[k] == old(outp)@[k],
+''',
+           loops={0: '''
+invariant
+    1 <= d,
+    outp@.len() == old(outp)@.len(),
+    size <= outp@.len(),
+    d <= MAX_ROOTS,
+    size as int == pow2(d as nat),
+    forall|k: int| size <= k < outp@.len() ==> #[trigger] outp@[k] == old(outp)@[k],
+''', 1: '''
+invariant
+    set_s ==> d < MAX_ROOTS,
+    outp@.len() == old(outp)@.len(),
+    size <= outp@.len(),
+    d <= MAX_ROOTS,
+    size as int == pow2(d as nat),
+    forall|k: int| size <= k < outp@.len() ==> #[trigger] outp@[k] == old(outp)@[k],
+''', 2: '''
+invariant
+    outp@.len() == old(outp)@.len(),
+    size <= outp@.len(),
+    d <= MAX_ROOTS,
+    size as int == pow2(d as nat),
+    forall|k: int| size <= k < outp@.len() ==> #[trigger] outp@[k] == old(outp)@[k],
+    1 <= l <= d,
+    y as int == pow2((l - 1) as nat),
+    chunk as int == pow2((d - l) as nat),
+''', 3: '''
+invariant
+    outp@.len() == old(outp)@.len(),
+    size <= outp@.len(),
+    d <= MAX_ROOTS,
+    size as int == pow2(d as nat),
+    forall|k: int| size <= k < outp@.len() ==> #[trigger] outp@[k] == old(outp)@[k],
+    1 <= l <= d,
+    y as int == pow2((l - 1) as nat),
+    chunk as int == pow2((d - l) as nat),
+''', 4: '''
+invariant
+    1 <= i < y,
+    outp@.len() == old(outp)@.len(),
+    size <= outp@.len(),
+    d <= MAX_ROOTS,
+    size as int == pow2(d as nat),
+    forall|k: int| size <= k < outp@.len() ==> #[trigger] outp@[k] == old(outp)@[k],
+    1 <= l <= d,
+    y as int == pow2((l - 1) as nat),
+    chunk as int == pow2((d - l) as nat),
+'''},
+           before=[('if size > outp.len()', '''
+    lemma2_to64();
+    assert(d as int <= 64) by { if d > 64 { lemma_pow2_strictly_increases(64, (d - 1) as nat); } }
+'''), ('if (set_s && size > 1 << (MAX_ROOTS - 1))', '''
+    lemma_shl_pow2((MAX_ROOTS - 1) as usize); lemma_shl_pow2(MAX_ROOTS);
+'''), ('if size != 1 << d', '''
+    // size <= 2^MAX_ROOTS here, and 2^(d-1) < size, hence d <= MAX_ROOTS
+    if d >= 1 { if d > MAX_ROOTS { lemma_pow2_strictly_increases_or_eq(MAX_ROOTS as nat, (d - 1) as nat); } }
+    if set_s && d >= 1 { if d > MAX_ROOTS - 1 { lemma_pow2_strictly_increases_or_eq((MAX_ROOTS - 1) as nat, (d - 1) as nat); } }
+    lemma_shl_pow2(d);
+'''), ('if d > 0', '''
+    assert(forall|dd: nat| dd <= MAX_ROOTS && size as int == pow2(dd) ==> true);
+'''), ('let y = 1 << (l - 1)', '''
+    lemma_shl_pow2((l - 1) as usize);
+'''), ('let chunk = (size / y) >> 1', '''
+    lemma_pow2_pos((l - 1) as nat); lemma_pow2_pos((d - l) as nat);
+    lemma_butterfly_index(d as nat, l as nat, 0, 0);
+    // size / 2^(l-1) / 2 == 2^(d-l)
+    assert(pow2(d as nat) == pow2((d - l) as nat) * (2 * pow2((l - 1) as nat)));
+    assert(size as int == (2 * pow2((d - l) as nat)) * y as int + 0) by (nonlinear_arith)
+        requires size as int == pow2((d - l) as nat) * (2 * pow2((l - 1) as nat)), y as int == pow2((l - 1) as nat);
+    lemma_fundamental_div_mod_converse(size as int, y as int, 2 * pow2((d - l) as nat) as int, 0);
+    let q = size / y;
+    assert((q >> 1usize) == q / 2) by (bit_vector);
+'''), ('let x = j << l;', BFLY % '0'), ('let x = (j << l) + i;', BFLY % 'i as int')])
     return u
